@@ -420,6 +420,293 @@ def make_table(eng, ncols, nrows, ncellkinds):
     return body
 
 
+# ------------------------------------------------------------ code blocks: verbatim text whether or not pygments splits it
+
+CODE_LANGS = ["python", "", "nosuchlang", "c", "json", "text", "pycon"]
+CODE_TEXTS = ["x = 1\n", "def f(a):\n    return \"\"\"s\n\n\"\"\"  # c\n", "\tt\tu\n", "  ind  \n", "a\x0cb\n", "<b>&amp;</b> *not em*\n", "café   z\n", ">>> 1 +\\\n... 2\n3\n",
+              "\n\nx = 1\n", "x = 1\n\n\n", "{\"a\": [1, 2]}\n"]
+CODE_STYLES = ["backtick", "tilde", "indented", "code-block", "code-numbered", "sphinx-fence"]
+
+
+class _SphinxEnvStub:
+    docname = "index"
+    temp_data = {}
+    metadata = {}
+
+    class config:
+        suppress_warnings = []
+        highlight_language = "default"
+        myst_ref_domains = None
+
+
+def code_doc(lang, text, style):
+    body = text[:-1].split("\n")
+    if style in ("backtick", "sphinx-fence"):
+        return ["````" + lang] + body + ["````"]
+    if style == "tilde":
+        return ["~~~~" + lang] + body + ["~~~~"]
+    if style == "indented":
+        return ["    " + l for l in body]
+    if style == "code-block":
+        return ["````{code-block} " + lang] + body + ["````"]
+    return ["````{code} " + lang, ":number-lines: 3", ""] + body + ["````"]
+
+
+def check_code(lang, text, style, real=False):
+    from docutils import nodes
+
+    if style == "indented" and (lang or not text.strip("\n") or text.startswith("\n") or text.endswith("\n\n") or text.startswith("  ")):
+        return "skip"  # an indented block has no language and cannot start/end with blank lines
+    if style in ("code-block", "code-numbered") and (text.startswith("\n") or text.endswith("\n\n")):
+        return "skip"  # a directive body drops blank lines at its ends by design (C08)
+    lines = ["before", ""] + code_doc(lang, text, style) + ["", "after"]
+    ctx = CR.new_context(real=real, sphinx_env=_SphinxEnvStub() if style == "sphinx-fence" else None)
+    ctx.renderer._render_tokens(ctx.md.parse("\n".join(lines) + "\n", ctx.renderer.md_env))
+    lbs = list(ctx.document.findall(nodes.literal_block))
+    if len(lbs) != 1:
+        return ("code-block-count", "%d literal blocks for one code block (%s, %r)" % (len(lbs), style, lang))
+    lb = lbs[0]
+    for ln in list(lb.findall(nodes.inline)):
+        if "ln" in ln["classes"]:
+            ln.parent.remove(ln)  # line numbers are decoration, not code text
+    got = lb.astext()
+    want = text
+    # the final newline of the block may or may not be kept (docutils convention); everything else is the code
+    if got not in (want, want[:-1]):
+        kind = "code-verbatim"
+        if got.strip("\n") == want.strip("\n") and want.strip("\n") != want[:-1]:
+            # pygments-highlighted code loses blank lines at its ends (docutils' Lexer uses pygments' default stripnl): classified separately
+            kind = "code-verbatim:blank-lines-stripped-by-lexer"
+        return (kind, "%s block, language %r: code %r became %r" % (style, lang, want, got))
+    language = lb.get("language") if "language" in lb else None
+    if lang and language != lang and lang not in lb["classes"]:
+        return ("code-language", "%s block: language %r not carried over (language=%r classes=%r)" % (style, lang, language, lb["classes"]))
+    paras = [p_.astext() for p_ in ctx.document.findall(nodes.paragraph)]
+    if paras != ["before", "after"]:
+        return ("code-swallows-neighbours", "paragraphs %r" % (paras,))
+    return None
+
+
+def make_code(eng):
+    setup()
+    c = CR.Choice(eng, n=8, width=15)
+    state = {}
+    eng.witness_fn = lambda m: dict(state)
+
+    def body():
+        c.reset()
+        lang, text, style = c.pick(CODE_LANGS), c.pick(CODE_TEXTS), c.pick(CODE_STYLES)
+        state.update(code=[lang, text, style])
+        try:
+            err = check_code(lang, text, style)
+        except Exception as exc:  # noqa
+            eng.fail("render-raises", "%s: %s" % (type(exc).__name__, exc))
+        if err == "skip":
+            raise core.PathAbort("combination not expressible")
+        if err:
+            if err[0].endswith("stripped-by-lexer"):
+                eng.stats["obligations"] += 1
+                eng.candidates.append(core.Candidate(err[0], eng.witness(), err[1]))
+            else:
+                eng.fail(err[0], err[1])
+        eng.passed(3)
+        eng.note("attr")
+        return "ok"
+
+    return body
+
+
+# ------------------------------------------------------------ MyST extension syntax: every leaf once, in order, content identical
+
+EXT_ON = ["dollarmath", "amsmath", "deflist", "fieldlist", "tasklist", "strikethrough", "colon_fence", "attrs_inline", "attrs_block", "smartquotes", "replacements"]
+EXT_KINDS = ["math-inline", "math-double", "math-block", "math-block-label", "amsmath", "deflist", "fieldlist", "tasklist", "strike", "span-attrs", "quotes", "colon-fence", "block-attrs"]
+
+
+def ext_md(c, kind, n):
+    i1 = inline_md(c.pick(INL), 10 * n)
+    if kind == "math-inline":
+        return ["M%d %s $a_%d \\\\alpha$ tail" % (n, i1, n)]
+    if kind == "math-double":
+        return ["M%d $$b_%d$$ %s" % (n, n, i1)]
+    if kind == "math-block":
+        return ["$$", "c_%d = \\\\frac{1}{2}" % n, "  d", "$$"]
+    if kind == "math-block-label":
+        return ["$$", "e_%d" % n, "$$ (eq%d)" % n]
+    if kind == "amsmath":
+        return ["\\\\begin{align}", "f_%d &= 1 \\\\\\\\" % n, "g &= 2", "\\\\end{align}"]
+    if kind == "deflist":
+        return ["Term%d %s" % (n, i1), ": Def%d one" % n, "", "  second para", ": Def%d two" % n]
+    if kind == "fieldlist":
+        return [":name%d %s: body%d" % (n, i1, n), "  continued", ":empty%d:" % n]
+    if kind == "tasklist":
+        return ["- [ ] todo%d %s" % (n, i1), "- [x] done%d" % n]
+    if kind == "strike":
+        return ["S%d ~~gone %s~~ kept" % (n, i1)]
+    if kind == "span-attrs":
+        return ["A%d [span %s]{.cls #sid%d} after" % (n, i1, n)]
+    if kind == "quotes":
+        return ["Q%d \"quoted\" -- dash (c) ... %s" % (n, i1)]
+    if kind == "colon-fence":
+        return [":::{note}", "inside%d %s" % (n, i1), ":::"]
+    if kind == "block-attrs":
+        return ["{.bcls #bid%d}" % n, "Para%d with attrs %s" % (n, i1)]
+    raise ValueError(kind)
+
+
+def token_leaves_flat(tree):
+    """Leaf sequence of the syntax tree incl. math tokens (containers ignored)."""
+    out = []
+    for ch in tree.children:
+        t = ch.type
+        if t == "text":
+            if ch.content:
+                out.append(("text", ch.content))
+        elif t == "softbreak":
+            out.append(("text", "\n"))
+        elif t == "code_inline":
+            out.append(("literal", ch.content))
+        elif t in ("code_block", "fence"):
+            out.append(("literal_block", ch.content.rstrip("\n")))
+        elif t in ("html_inline", "html_block"):
+            out.append(("raw", ch.content.rstrip("\n")))
+        elif t in ("math_inline", "math_single"):
+            out.append(("math", ch.content))
+        elif t in ("math_inline_double", "math_block", "math_block_label", "amsmath"):
+            out.append(("math_block", ch.content))
+        elif t == "image":
+            out.append(("image", (ch.attrGet("src"), _plain(ch))))
+        elif t == "hr":
+            out.append(("transition", ""))
+        elif t == "colon_fence":
+            out.append(("directive", ch.content.rstrip("\n")))
+        elif t == "html_inline" or t == "s_open":
+            continue
+        else:
+            out += token_leaves_flat(ch)
+    return out
+
+
+def node_leaves_flat(node):
+    from docutils import nodes
+
+    out = []
+    for ch in node.children:
+        if isinstance(ch, nodes.Text):
+            if str(ch):
+                out.append(("text", str(ch)))
+        elif isinstance(ch, nodes.literal_block):
+            out.append(("literal_block", ch.astext().rstrip("\n")))
+        elif isinstance(ch, nodes.literal):
+            out.append(("literal", ch.astext()))
+        elif isinstance(ch, nodes.raw):
+            out.append(("raw", ch.astext().rstrip("\n")))
+        elif isinstance(ch, nodes.math_block):
+            out.append(("math_block", ch.astext()))
+        elif isinstance(ch, nodes.math):
+            out.append(("math", ch.astext()))
+        elif isinstance(ch, nodes.image):
+            out.append(("image", (ch["uri"], ch.get("alt", ""))))
+        elif isinstance(ch, nodes.transition):
+            out.append(("transition", ""))
+        elif isinstance(ch, nodes.system_message):
+            continue
+        elif isinstance(ch, nodes.note):
+            out.append(("directive", "\n".join(p_.rawsource for p_ in ch.children)))
+        else:
+            out += node_leaves_flat(ch)
+    return out
+
+
+def compare_ext(text, real=False):
+    from docutils import nodes
+    from markdown_it.tree import SyntaxTreeNode
+
+    ctx = CR.new_context(real=real, config={"enable_extensions": EXT_ON, "highlight_code_blocks": False})
+    tl = token_leaves_flat(SyntaxTreeNode(ctx.md.parse(text, {})))
+    ctx.renderer._render_tokens(ctx.md.parse(text, ctx.renderer.md_env))
+    nl = node_leaves_flat(ctx.document)
+    # strikethrough is raw <s>..</s> around the struck text in docutils; drop those two raw leaves
+    nl = [x for x in nl if not (x[0] == "raw" and x[1] in ("<s>", "</s>"))]
+    tl = [x for x in tl if not (x[0] == "raw" and x[1] in ("<s>", "</s>"))]
+    # a directive body is compared by its own text in the other families: here only its presence
+    tl = [(k, "" if k == "directive" else v) for k, v in tl]
+    nl = [(k, "" if k == "directive" else v) for k, v in nl]
+    if tl != nl:
+        for i, (x, y) in enumerate(zip(tl, nl)):
+            if x != y:
+                return ("ext-leaf-differs", "leaf %d is %r in the syntax tree but %r in the doctree" % (i, x, y))
+        return ("ext-leaf-count", "%d leaves in the syntax tree, %d in the doctree: %r vs %r" % (len(tl), len(nl), tl[-2:], nl[-2:]))
+    # containers of the extension constructs
+    counts = {"dl": text.count("\n: ") and 1, "field": text.count(":name"), "empty-field": text.count(":empty")}
+    nfields = len(list(ctx.document.findall(nodes.field)))
+    if nfields != counts["field"] + counts["empty-field"]:
+        return ("ext-field-count", "%d field nodes for %d fields" % (nfields, counts["field"] + counts["empty-field"]))
+    for f in ctx.document.findall(nodes.field):
+        if len(f) != 2 or not isinstance(f[0], nodes.field_name) or not isinstance(f[1], nodes.field_body):
+            return ("ext-field-shape", "field children %r" % [c_.tagname for c_ in f.children])
+    nterms = len(list(ctx.document.findall(nodes.term)))
+    want_terms = text.count("Term")
+    if nterms != want_terms:
+        return ("ext-term-count", "%d term nodes for %d terms" % (nterms, want_terms))
+    for it in ctx.document.findall(nodes.definition_list_item):
+        kinds = [c_.tagname for c_ in it.children]
+        if not kinds or kinds[0] != "term" or "definition" not in kinds or kinds != sorted(kinds, key=lambda k_: k_ != "term"):
+            return ("ext-deflist-shape", "definition_list_item children %r" % kinds)
+    ndefs = len(list(ctx.document.findall(nodes.definition)))
+    if ndefs != text.count("\n: "):
+        return ("ext-definition-count", "%d definitions for %d ': ' lines" % (ndefs, text.count("\n: ")))
+    for mb in ctx.document.findall(nodes.math_block):
+        if "eq" in "".join(mb.get("names", [])) and not mb.get("ids"):
+            return ("ext-math-label", "labelled math block has no id")
+    nlabel = sum(1 for mb in ctx.document.findall(nodes.math_block) if mb.get("names"))
+    if nlabel != text.count("$$ (eq"):
+        return ("ext-math-label", "%d labelled math blocks for %d labels" % (nlabel, text.count("$$ (eq")))
+    for sp in ctx.document.findall(nodes.inline):
+        if "cls" in sp["classes"] and not any(i_.startswith("sid") for i_ in sp["ids"]):
+            return ("ext-span-attrs", "span lost its id: %r" % (sp.attributes,))
+    nspan = sum(1 for sp in ctx.document.findall(nodes.inline) if "cls" in sp["classes"])
+    if nspan != text.count("]{.cls"):
+        return ("ext-span-attrs", "%d spans with class for %d in the source" % (nspan, text.count("]{.cls")))
+    nb = sum(1 for p_ in ctx.document.findall(nodes.paragraph) if "bcls" in p_["classes"] and any(i_.startswith("bid") for i_ in p_["ids"]))
+    if nb != text.count("{.bcls"):
+        return ("ext-block-attrs", "%d paragraphs with block attributes for %d in the source" % (nb, text.count("{.bcls")))
+    ntask = sum(1 for li in ctx.document.findall(nodes.list_item) if "task-list-item" in li["classes"])
+    if ntask != text.count("- [ ]") + text.count("- [x]"):
+        return ("ext-tasklist", "%d task items for %d in the source" % (ntask, text.count("- [ ]") + text.count("- [x]")))
+    return None
+
+
+def make_ext(eng, nblocks):
+    setup()
+    c = CR.Choice(eng, n=24, width=15)
+    state = {}
+    eng.witness_fn = lambda m: dict(state)
+
+    def body():
+        c.reset()
+        lines = []
+        for n in range(nblocks):
+            if lines:
+                lines.append("")
+            lines += ext_md(c, c.pick(EXT_KINDS), n)
+        text = "\n".join(lines) + "\n"
+        state.update(ext=text)
+        try:
+            err = compare_ext(text)
+        except Exception as exc:  # noqa
+            import traceback
+
+            tb = traceback.extract_tb(exc.__traceback__)
+            eng.fail("render-raises", "%s: %s at %s" % (type(exc).__name__, exc, tb[-1].name if tb else "?"))
+        if err:
+            eng.fail(err[0], err[1])
+        eng.passed(6)
+        eng.note("nested")
+        return "ok"
+
+    return body
+
+
 def make_struct(eng, nblocks, kinds):
     setup()
     c = CR.Choice(eng, n=48, width=15)
@@ -468,6 +755,11 @@ def families(tier, seed):
     for nc, nr, nk in ([(1, 1, 3), (2, 1, 3), (3, 1, 2)] if q else [(1, 2, 3), (2, 1, 3), (2, 2, 3), (3, 1, 2), (3, 2, 2), (3, 1, 3)]):
         F.append(Family("table/C%dR%dK%d" % (nc, nr, nk), make_table, "pipe table: %d column(s) x alignment none/left/center/right, header + %d body row(s), every cell from %r" % (nc, nr, [x[0] for x in CELLS[:nk]]),
                         args=dict(ncols=nc, nrows=nr, ncellkinds=nk), nontrivial="attr", max_forks=400000, required=(nc * (1 + nr) <= 6)))
+    F.append(Family("code", make_code, "code blocks: language from %r x %d code texts (tabs, trailing spaces, form feed, markup-like text, blank lines at either end, doctest) x styles %r: literal text verbatim, language kept" % (
+        CODE_LANGS, len(CODE_TEXTS), CODE_STYLES), nontrivial="attr", max_forks=100000))
+    for nb in ([1, 2] if q else [2, 3]):
+        F.append(Family("ext/B%d" % nb, make_ext, "%d block(s) of MyST extension syntax from %r, each with an inline fragment from %r: every text / code / math / raw / image leaf once, in order, content identical; fields, terms, definitions, labels, span and block attributes, task items counted" % (
+            nb, EXT_KINDS, INL), args=dict(nblocks=nb), nontrivial="nested", max_forks=400000, required=(nb <= 2)))
     F.append(Family("struct/B1", make_struct, "one block from %r with two inline fragments from %r, CommonMark and MyST mode" % (BLK, INL), args=dict(nblocks=1, kinds=BLK), nontrivial="nested", max_forks=400000))
     F.append(Family("struct/headings", make_struct, "3-4 headings with levels 1/3/4 each followed by a paragraph (source order of leaves under level skips)", args=dict(nblocks=3 if q else 4, kinds=["h1", "h3", "h4"]),
                     nontrivial=None, max_forks=400000))
@@ -483,6 +775,13 @@ def replay(label, witness):
         if "text" in witness:
             err = compare_doc(witness["text"], witness["mode"], real=True)
             return ("C02/%s" % err[0], "document %r: %s" % (witness["text"], err[1])) if err else None
+        if "ext" in witness:
+            err = compare_ext(witness["ext"], real=True)
+            return ("C02/%s" % err[0], "document %r: %s" % (witness["ext"], err[1])) if err else None
+        if "code" in witness:
+            lang, text, style = witness["code"]
+            err = check_code(lang, text, style, real=True)
+            return ("C02/%s" % err[0], err[1]) if err and err != "skip" else None
         if "table" in witness:
             err = check_table(witness["table"], witness["spec"], real=True)
             return ("C02/%s" % err[0], "table %r: %s" % (witness["table"], err[1])) if err else None
